@@ -45,7 +45,7 @@ def run(ck):
     # ---- single-Einsum specs: joiner vs real model vs Coq model
     for i in range(ck.n(8, 100)):
         spec, space = R.gen_search_spec(rng, max_space=ck.n(3000, 20000))
-        for metrics in (["ENERGY", "LATENCY"], ["ENERGY_DELAY_PRODUCT"]):
+        for metrics in (["ENERGY", "LATENCY"], ["ENERGY_DELAY_PRODUCT"]) + ((["ENERGY", "RESOURCE_USAGE"],) if i % 2 == 0 else ()):
             fast = R.run_mapper(af, spec, d, metrics, eval_in_detail=False)
             slow = R.run_mapper(af, spec, d, metrics, eval_in_detail=True)
             ck.case(json.dumps([spec, metrics], sort_keys=True, default=str), nontrivial=True, sample={"bounds": spec["bounds"], "metrics": metrics, "rows": len(fast["rows"])})
@@ -80,10 +80,11 @@ def run(ck):
                     ck.failing_input({"spec": spec, "metrics": metrics, "row": j, "problems": bad[:8], "mapping": ra.get("mapping"),
                                       "arch_yaml": S.arch_yaml(spec), "workload_yaml": G.workload_yaml(spec)}, what="reported metrics differ from the model's evaluation: " + bad[0])
     # ---- multi-Einsum matmul chains: joiner vs real model
-    for k in range(ck.n(3, 24)):
-        n = 2 + k % 2
+    for k in range(ck.n(4, 24)):
+        n = 2 + (k // 2) % 2
         kw = {"N_EINSUMS": n, "M": rng.choice([2, 4, 8]), "KN": rng.choice([2, 4, 8]), "GlobalBufferSize": rng.choice([64, 256, 1024, 8192])}
-        for metrics in ([af.Metrics.ENERGY, af.Metrics.ENERGY | af.Metrics.LATENCY][k % 2],):
+        for metrics in ([af.Metrics.ENERGY | af.Metrics.RESOURCE_USAGE, af.Metrics.ENERGY | af.Metrics.LATENCY, af.Metrics.ENERGY,
+                         af.Metrics.ENERGY | af.Metrics.LATENCY | af.Metrics.RESOURCE_USAGE][k % 4],):
             spec = af.Spec.from_yaml(af.examples.arches.simple, af.examples.workloads.basic.matmuls, jinja_parse_data=kw)
             spec.mapper.metrics = metrics
             try:
@@ -110,6 +111,53 @@ def run(ck):
                     bad.append(f"per-Einsum energy columns sum to {es}, Total energy is {rb['Total<SEP>energy']}")
                 if bad:
                     ck.failing_input({"jinja": kw, "row": j, "problems": bad[:8]}, what="reported metrics differ from the model's evaluation (matmul chain): " + bad[0])
+    # ---- chains on generated architectures with an Einsum-dependent attribute: joiner numbers vs STANDALONE evaluate_mapping
+    # (spec.mapping set, no flattened architectures handed over) of the very mapping each row denotes
+    import copy
+    import join_ref as JR
+    jrng = ck.rng("chains")
+    dist["standalone_rows"] = 0
+    for k in range(ck.n(5, 30)):
+        p = JR.gen_spec(jrng, allow_three=False)
+        if k % 2 == 0:
+            p["gbpv"] = jrng.choice(["weight: 16", "input: 4", "output: 16"])
+        metrics = [af.Metrics.ENERGY | af.Metrics.LATENCY, af.Metrics.ENERGY | af.Metrics.RESOURCE_USAGE, af.Metrics.ENERGY][k % 3]
+        try:
+            cwd = os.getcwd()
+            os.chdir(d)
+            try:
+                sp = JR.load_spec(af, p, d, metrics)
+                fast = map_workload_to_arch(sp, eval_in_detail=False, print_progress=False)
+            finally:
+                os.chdir(cwd)
+        except Exception as ex:  # noqa
+            dist["chain_mapper_errors"] = dist.get("chain_mapper_errors", 0) + 1
+            continue
+        ck.case(("gen-chain", json.dumps(p, sort_keys=True, default=str), str(metrics)), nontrivial=True,
+                sample={"params": {q: p[q] for q in ("n", "M", "ns", "glb", "gbpv")}, "rows": len(fast.data)})
+        for j in range(min(len(fast.data), 4)):
+            row = fast.data.iloc[j]
+            try:
+                local = copy.deepcopy(sp)
+                local.model.metrics = local.mapper.info_metrics
+                local.mapping = row["Total<SEP>mapping"](_for_model=True)
+                cwd = os.getcwd()
+                os.chdir(d)
+                try:
+                    alone = evaluate_mapping(local)
+                finally:
+                    os.chdir(cwd)
+                e2, l2 = float(alone.energy()), float(alone.latency())
+            except Exception as ex:  # noqa
+                ck.failing_input({"params": p, "row": j, "error": f"{type(ex).__name__}: {str(ex)[:300]}", "arch_yaml": JR.yaml_text(p)[0], "workload_yaml": JR.yaml_text(p)[1]},
+                                 what="standalone evaluate_mapping rejects a mapping the mapper returned")
+                continue
+            dist["standalone_rows"] += 1
+            bad = [f"Total {nm}: joiner {float(row[c])} vs standalone evaluation {v}" for nm, c, v in (("energy", "Total<SEP>energy", e2), ("latency", "Total<SEP>latency", l2))
+                   if c in fast.data.columns and not R.close(float(row[c]), v, 2e-5)]
+            if bad:
+                ck.failing_input({"params": p, "row": j, "problems": bad, "arch_yaml": JR.yaml_text(p)[0], "workload_yaml": JR.yaml_text(p)[1]},
+                                 what="reported metrics differ from the standalone evaluation of the returned mapping (generated chain): " + bad[0])
     vals = common.run_coq_eval("C04", ["AF.Lib.MiniForge"], exprs, chunk=20, preamble="From Coq Require Import QArith.\nOpen Scope Z_scope.")
     mism = []
     for (spec, m, ra), v in zip(keys, vals):
